@@ -103,6 +103,14 @@ func init() {
 		}
 		return drv.Obs{"ended": true}
 	}
+	// the same handler in a goroutine of its own: the op returns at once (free-running runs must not wait for a
+	// handler that a defect may leave blocked for ever)
+	drv.Extra["fan_serve_bg"] = func(c *drv.Ctx, o *drv.Op) drv.Obs {
+		x := arg(o)
+		st := stream(x.R)
+		go func() { _ = server.GetWALStream(nil, st) }()
+		return drv.Obs{"ok": true}
+	}
 	drv.Extra["fan_fail"] = func(c *drv.Ctx, o *drv.Op) drv.Obs { // the replica goes away: the next Send on its stream fails
 		s := stream(arg(o).R)
 		s.mu.Lock()
